@@ -8,7 +8,8 @@
 
    Tokens are <<type, value>>; the last one is <<"eof", <<>>>>.  Values: uid/qid/strlit code points,
    number an integer (or <<"number", 0, huge>>, see Slice.tla), jsonlit a JSON *value*.
-   Result of every operator: <<"ok", node, nextIndex>> or <<"err", <<>>, indexOfOffendingToken>>.
+   Result of every operator: <<"ok", node, nextIndex>> or <<"err", <<>>, indexOfOffendingToken>> (a syntax
+   error), or <<"other", ..>> (a conversion error of strconv / encoding/json raised when the token is consumed).
 
    The specification is the *grammar-conforming* parser.  Deviations the pinned code had are named
    switches in Dev: "VPDot40" (right-hand side of `l.*` parsed with dot's power), "ArgsNoComma"
@@ -28,6 +29,10 @@ PErr(i) == <<"err", <<>>, i>>
 PIsOk(r) == r[1] = "ok"
 TT(toks, i) == toks[i][1]
 TV(toks, i) == toks[i][2]
+(* a number / literal token whose text could not be converted (strconv.Atoi, json.Unmarshal) carries a third
+   component <<"bad">> or <<"unmodelled">>; the conversion error surfaces when the parser consumes the token *)
+BadTok(tk) == Len(tk) = 3 /\ tk[3][1] \in {"bad", "unmodelled"}
+PConvErr(tk, i) == IF tk[3][1] = "unmodelled" THEN <<"unmodelled", <<>>, i>> ELSE <<"other", <<>>, i>>
 (* slice / index parameter carried by a number token *)
 NumParam(tk) == IF Len(tk) = 3 THEN tk[3] ELSE IntP(tk[2])
 IndexNode(tk) == IF Len(tk) = 3 THEN <<"Index", 0, tk[3]>> ELSE Index(tk[2])
@@ -58,6 +63,7 @@ ProjectIfSlice(toks, left, right, i) ==
 ParseIndex(toks, i) ==
   IF TT(toks, i) = "colon" \/ TT(toks, i + 1) = "colon"
   THEN ParseSliceParts(toks, i, 1, <<NoneP, NoneP, NoneP>>, FALSE)
+  ELSE IF BadTok(toks[i]) THEN PConvErr(toks[i], i)
   ELSE IF TT(toks, i + 1) = "rbracket" THEN POk(IndexNode(toks[i]), i + 2) ELSE PErr(i + 1)
 
 (* slice: [number] ":" [number] [ ":" [number] ] *)
@@ -66,7 +72,8 @@ ParseSliceParts(toks, i, part, parts, justNum) ==
   IF t = "rbracket" THEN (IF part >= 2 \/ "LaxSlice" \in Dev THEN POk(<<"Slice", parts>>, i + 1) ELSE PErr(i))
   ELSE IF t = "colon" THEN (IF part < 3 THEN ParseSliceParts(toks, i + 1, part + 1, parts, FALSE)
                             ELSE IF "LaxSlice" \in Dev /\ TT(toks, i + 1) = "rbracket" THEN POk(<<"Slice", parts>>, i + 2) ELSE PErr(i))
-  ELSE IF t = "number" /\ (~justNum \/ "LaxSlice" \in Dev) THEN ParseSliceParts(toks, i + 1, part, [parts EXCEPT ![part] = NumParam(toks[i])], TRUE)
+  ELSE IF t = "number" /\ (~justNum \/ "LaxSlice" \in Dev) THEN
+       IF BadTok(toks[i]) THEN PConvErr(toks[i], i) ELSE ParseSliceParts(toks, i + 1, part, [parts EXCEPT ![part] = NumParam(toks[i])], TRUE)
   ELSE PErr(i)
 
 Led(toks, t, left, i) ==
@@ -114,7 +121,7 @@ ParseArgs(toks, i, acc) ==
 
 Nud(toks, i) ==
   LET t == TT(toks, i) v == TV(toks, i) j == i + 1 IN
-  CASE t = "jsonlit" -> POk(Lit(v), j)
+  CASE t = "jsonlit" -> IF BadTok(toks[i]) THEN PConvErr(toks[i], i) ELSE POk(Lit(v), j)
     [] t = "strlit" -> POk(Lit(Str(v)), j)
     [] t = "uid" -> POk(Field(v), j)
     [] t = "qid" -> IF TT(toks, j) = "lparen" THEN PErr(i) ELSE POk(Field(v), j)
@@ -191,7 +198,7 @@ ParseProjRHS(toks, i, bp) ==
 (* Parser.Parse on a token sequence that ends with eof: <<"ok", ast>> or <<"err", tokenIndex>> *)
 Parse(toks) ==
   LET r == ParseExpr(toks, 1, 0) IN
-  IF r[1] = "panic" THEN <<"panic">>
+  IF r[1] \in {"panic", "other", "unmodelled"} THEN <<r[1]>>
   ELSE IF ~PIsOk(r) THEN <<"err", r[3]>>
   ELSE IF TT(toks, r[3]) = "eof" THEN <<"ok", r[2]>> ELSE <<"err", r[3]>>
 
